@@ -88,6 +88,71 @@ def run(ctx):
             guarded = any(f.N(a)['k'] == 'CXXTryStmt' and f.N(a)['ch'] and f.contains(f.N(a)['ch'][0], i) for a in f.ancestors(i))
             ctx.check(guarded, R2, '%s:%s@L%d:error_code-overload' % (f.bname.replace('cppcms::impl::cgi::', ''), sh, n['l'] - f.line),
                       'the throwing overload of %s::%s is used in a connection class (a peer reset makes it throw: in a destructor that is std::terminate, in a callback it stops service::run())' % (rec, sh), f.loc(i))
+    # booster::aio::endpoint accessors raise on an endpoint that was never filled in - which is what xxx_endpoint(error_code &) hands back when getpeername / getsockname failed
+    # (a peer that resets the connection right behind its request makes getpeername fail with ENOTCONN while the request is still readable). In a connection class an accessor
+    # applied to the result of such a call has to sit in a try block or behind the test of that call's error code.
+    PA = model.Program(build.extract([REPO + '/booster/lib/aio/src/endpoint.cpp', REPO + '/booster/lib/aio/src/basic_socket.cpp'], include_re='^/repo/booster/lib/aio/src/'))
+    ctx.stats['aio_functions'] = len(PA.fns)
+    def _unguarded(g, i):
+        return not any(g.N(a)['k'] == 'CXXTryStmt' and g.N(a)['ch'] and g.contains(g.N(a)['ch'][0], i) for a in g.ancestors(i))
+    EP = 'booster::aio::endpoint'
+    may_throw = {}
+    for g in PA.fns.values():
+        if g.body is not None and g.brecord == EP:
+            th = [i for i in g.all_nodes() if g.N(i)['k'] == 'CXXThrowExpr' and _unguarded(g, i)]
+            if th:
+                may_throw[g.id] = g.loc(th[0])
+    changed = True
+    while changed:
+        changed = False
+        for g in PA.fns.values():
+            if g.body is None or g.id in may_throw or g.brecord != EP:
+                continue
+            for i in g.calls():
+                c = g.N(i).get('callee')
+                if c in may_throw and _unguarded(g, i):
+                    may_throw[g.id] = '%s -> %s' % (g.loc(i), may_throw[c])
+                    changed = True
+                    break
+    accessors = set(k for k in may_throw if k.endswith(') const') and not k.startswith(EP + '::throw_invalid'))
+    ctx.require(len(accessors) >= 3 and EP + '::ip() const' in accessors, 'C02.R2: the raising endpoint accessors were not found (%s)' % sorted(accessors))
+    # the producers: calls that return an endpoint and report failure through an error code, leaving the endpoint empty on failure
+    def _producer(f, k_):
+        n_ = f.N(k_)
+        return n_['k'] in ('CXXMemberCallExpr', 'CallExpr') and f.args(k_) and 'error_code' in ((n_.get('ov') or [''])[-1]) and q.short_of(f.callee(k_) or '').endswith('_endpoint')
+    ctx.stats['raising_endpoint_accessors'] = len(accessors)
+    n2b = 0
+    for f in sorted(P.fns.values(), key=lambda g: g.id):
+        if not f.brecord or not any(f.brecord == c or f.brecord.startswith(c + '::') for c in conn_classes) or f.body is None:
+            continue
+        for i in f.calls():
+            c = f.N(i).get('callee')
+            if c not in accessors:
+                continue
+            o = f.obj(i)
+            if o is None:
+                continue
+            so = f.strip(o)
+            okc = None
+            if _producer(f, so):
+                okc = False          # applied to the unnamed result: the error code cannot have been looked at in between
+            else:
+                oref = f.ref_of(o)
+                prod = [d_ for j_ in f.all_nodes() if f.N(j_)['k'] == 'DeclStmt' for d_ in f.N(j_)['decls'] if oref and d_['ref'] == oref and d_.get('init') is not None]
+                pc = [k_ for d_ in prod for k_ in f.walk(d_['init']) if _producer(f, k_)]
+                if len(pc) == 1:
+                    ev = f.ref_of(f.args(pc[0])[-1])
+                    g_ok = f.gate_edges(lambda atom, pol, ev=ev: pol is False and ev in f.subtree_refs(atom) and not [x_ for x_ in f.subtree_refs(atom) if x_ != ev and (x_.startswith('v:') or x_.startswith('f:'))])
+                    okc = f.only_through(i, [e_ for e_ in g_ok if q.reaches(f, pc[0], f.blocks[e_[0]].tcond if len(e_) == 4 and f.blocks[e_[0]].tcond is not None else i)])
+            if okc is None:
+                continue
+            n2b += 1
+            okc = okc or not _unguarded(f, i)
+            ctx.check(okc, R2, '%s:%s@L%d:endpoint-accessor-only-after-the-error-test' % (f.bname.replace('cppcms::impl::cgi::', ''), q.short_of(c), f.N(i)['l'] - f.line),
+                      '%s raises on an empty endpoint (%s) and is applied outside a try block to the result of a call whose error code has not been tested: a peer that resets the connection '
+                      'right behind its request makes getpeername fail, the exception leaves the event loop and service::run() stops' % (c, may_throw[c]), f.loc(i))
+    ctx.require(n2b >= 1, 'C02.R2: no endpoint accessor on the result of remote_endpoint(error_code &) found in the connection classes')
+    ctx.stats['raising_aio_calls'] = n2b
     ctx.floor(R2, 100)
 
     # ---------------- R3
